@@ -151,6 +151,8 @@ WHITELIST = [
     ("core/obs_time.py", "ObsTime.toAbsTime", "ObsTime_toAbsTime",
      {"self": {"year": "int", "month": "int", "day": "int", "hour": "int", "min": "int", "sec": "int", "ms": "int"}}, "float",
      {"seconds": "int"}),
+    ("core/track.py", "Track.__getInsertionIndex", "Track_getInsertionIndex", {"self": "objlist[ObsKey]", "timestamp": "int"}, "int",
+     {"id": "int"}),
     ("core/spatial_index.py", "SpatialIndex.__getCell", "SpatialIndex_getCell",
      {"self": {"xmin": "float", "xmax": "float", "ymin": "float", "ymax": "float", "dX": "float", "dY": "float",
                "csize": "int", "lsize": "int"},
@@ -202,6 +204,10 @@ WHITELIST = [
 VIEWS = {
     "Obs": {"__class__": ("core/obs.py", "Obs"), "position": "object[ENUCoords]", "timestamp": "record[AbsTime]"},
     "AbsTime": {"__class__": ("core/obs_time.py", "ObsTime"), "toAbsTime()": "float"},
+    # ORDER ABSTRACTION: an observation of which only the timestamp is read, and only COMPARED (`<`, `<=`, `>`): the ObsTime is
+    # declared to be an integer key and its rich comparisons the integer ones (that ObsTime's field-wise __lt__/__gt__/__le__
+    # agree with the order of the instants is C03's theorems `lt_iff` / `gt_iff` / `le_iff`, not re-proved by the tie)
+    "ObsKey": {"__class__": ("core/obs.py", "Obs"), "timestamp": "int"},
 }
 REG = {}    # path -> Unit of the current run (classes and functions are looked up across the whitelisted files)
 
@@ -705,6 +711,8 @@ class FnTranslator:
         op = e.op
         if a.ty == "S" and b.ty == "S" and isinstance(op, ast.Add):
             return Val(None, "S")
+        if isinstance(op, ast.Mult) and a.ty == "B" and b.ty == "I":
+            return Val("((if %s then (1 : Int) else (0 : Int)) * %s)" % (a.term, b.term), "I")      # True == 1, False == 0
         if a.ty not in ("F", "I") or b.ty not in ("F", "I"):
             if isinstance(op, (ast.BitAnd, ast.BitOr)) and a.ty == "B" and b.ty == "B":
                 return Val("(%s %s %s)" % (a.term, "&&" if isinstance(op, ast.BitAnd) else "||", b.term), "B")
@@ -717,7 +725,13 @@ class FnTranslator:
             return Val("(%s %s %s)" % (self.as_float(e.left, a), sym, self.as_float(e.right, b)), "F")
         if isinstance(op, ast.Pow):
             if a.ty == "I" and b.ty == "I":
-                bad(e, "** on two ints")
+                if b.lit is not None and b.lit >= 0:
+                    return Val("(%s ^ (%d : Nat))" % (a.term, b.lit), "I")
+                # int ** int is an int only for a non-negative exponent (Python returns a FLOAT for a negative one: a value
+                # the translator cannot type); Py.ipow gives the error value `Err.type` there — a tie must exclude that case
+                t = self.tmp()
+                binds.append((t, "(Py.ipow %s %s)" % (a.term, b.term)))
+                return Val(t, "I")
             self.math.add("pow")
             return Val("(pow %s %s)" % (self.as_float(e.left, a), self.as_float(e.right, b)), "F")
         if isinstance(op, ast.Div):
